@@ -94,6 +94,33 @@ theorem flrSkipOutcome_eq (avail len : Nat) :
   · have : ¬ (min len avail ≠ len) := by omega
     rw [if_neg this, if_neg h2]
 
+/-! ## ReadTrackingReader -/
+
+theorem rtrAfterRead_true (lens : List Nat) : lens.foldl rtrAfterRead true = true := by
+  induction lens with
+  | nil => rfl
+  | cons x xs ih => simp only [List.foldl_cons, rtrAfterRead]; split <;> exact ih
+
+/-- `have_read` after any sequence of reads: some read handed out at least one byte -/
+theorem rtrHaveRead_eq (lens : List Nat) : rtrHaveRead lens = lens.any (fun l => l != 0) := by
+  unfold rtrHaveRead rtrInit
+  induction lens with
+  | nil => rfl
+  | cons x xs ih =>
+    simp only [List.foldl_cons, List.any_cons, rtrAfterRead]
+    by_cases hx : x = 0
+    · simp [hx]; exact ih
+    · have h1 : (x == 0) = false := by simp [hx]
+      have h2 : (x != 0) = true := by simp [hx]
+      rw [h1, h2]; simp only [Bool.false_eq_true, if_false, Bool.true_or]; exact rtrAfterRead_true xs
+
+theorem typeEofBreak_eq (b : Bytes) : typeEofBreak (rtrHaveRead (bigFirstRead b)) = b.isEmpty := by
+  rw [rtrHaveRead_eq]
+  cases b with
+  | nil => rfl
+  | cons x xs =>
+    simp [typeEofBreak, bigFirstRead]
+
 /-- the translated loop IS the model's loop -/
 theorem tlvLoopSrc_eq (tlvs : List TlvField) : ∀ (fuel : Nat) (last : Option Nat) (acc : List (Nat × Val)) (b : Bytes),
     tlvLoopSrc tlvs fuel last acc b = tlvLoop tlvs fuel last acc b := by
@@ -103,12 +130,20 @@ theorem tlvLoopSrc_eq (tlvs : List TlvField) : ∀ (fuel : Nat) (last : Option N
   | succ fuel ih =>
     intro last acc b
     unfold tlvLoopSrc tlvLoop
-    rw [reqMissing_eq]
+    rw [reqMissing_eq, typeEofBreak_eq]
     by_cases hb : b.isEmpty = true
-    · rw [if_pos hb, if_pos hb]
-    · rw [if_neg hb, if_neg hb]
+    · rw [if_pos hb]
+      have : b = [] := List.isEmpty_iff.mp hb
+      subst this
+      simp [BigSize.decode]
+    · have hb' : b.isEmpty = false := by simpa using hb
+      simp only [hb', Bool.false_eq_true, ↓reduceIte]
       cases hT : BigSize.decode b with
-      | error e => rfl
+      | error e =>
+        simp only []
+        by_cases he : e = .ShortRead
+        · rw [if_pos he, he]
+        · rw [if_neg he]
       | ok p =>
         obtain ⟨typ, b1⟩ := p
         simp only []
@@ -161,6 +196,43 @@ theorem tlvLoopSrc_eq (tlvs : List TlvField) : ∀ (fuel : Nat) (last : Option N
                     by_cases h2 : b2.length < len
                     · rw [if_pos h2, if_pos h2]
                     · rw [if_neg h2, if_neg h2]
+
+/-! ## `WithoutLength<Vec<T>>`: read-to-end vectors of fixed-size elements -/
+
+/-- the first `k` chunks of `n` bytes -/
+def chunkList (n : Nat) : Nat → Bytes → List Bytes
+  | 0, _ => []
+  | k + 1, b => b.take n :: chunkList n k (b.drop n)
+
+theorem bytesVec_chunkList (n : Nat) : ∀ (k : Nat) (b : Bytes), bytesVec (chunkList n k b) = chunkVals n k b
+  | 0, _ => rfl
+  | k + 1, b => by simp [chunkList, bytesVec, chunkVals, bytesVec_chunkList n k]
+
+/-- the translated loop of `WithoutLength<Vec<T>>::read_from_fixed_length_buffer` over `n`-byte elements: accepted iff the reader
+    holds a whole number of elements (the break guard fires exactly at an element boundary), else the element's ShortRead -/
+theorem wlVecLoopSrc_eq (n : Nat) (hn : 0 < n) : ∀ (fuel : Nat) (acc : List Bytes) (b : Bytes), b.length < fuel →
+    wlVecLoopSrc n fuel acc b = if b.length % n = 0 then .ok (acc ++ chunkList n (b.length / n) b) else .error .ShortRead := by
+  intro fuel
+  induction fuel with
+  | zero => intro acc b h; omega
+  | succ fuel ih =>
+    intro acc b h
+    unfold wlVecLoopSrc
+    by_cases hle : n ≤ b.length
+    · rw [if_pos hle, ih _ _ (by rw [List.length_drop]; omega), List.length_drop]
+      obtain ⟨m, hm⟩ : ∃ m, b.length = m + n := ⟨b.length - n, by omega⟩
+      have h1 : b.length - n = m := by omega
+      rw [h1, hm, Nat.add_mod_right, Nat.add_div_right m hn]
+      by_cases hz : m % n = 0
+      · rw [if_pos hz, if_pos hz]; simp [chunkList]
+      · rw [if_neg hz, if_neg hz]
+    · rw [if_neg hle, rtrHaveRead_eq]
+      have hlt : b.length < n := by omega
+      have hmin : min n b.length = b.length := by omega
+      rw [hmin, Nat.mod_eq_of_lt hlt, Nat.div_eq_of_lt hlt]
+      by_cases hz : b.length = 0
+      · rw [if_pos hz]; simp [wlVecBreak, hz, chunkList]
+      · rw [if_neg hz]; simp [wlVecBreak, hz]
 
 /-! ## the writer -/
 
